@@ -90,6 +90,23 @@ Check C07_demux_collision_refuted :
                 r = RErrInternal.
 Print Assumptions C07_demux_collision_refuted.
 
+(* ... and a collision is the only way: on every history in which no submission
+   carries an id that is in flight, the code as found produces exactly the
+   outputs of the repaired code (so C07_demux_exactly_once applies to it) and
+   its task stays alive. *)
+Theorem C07_demux_orig_agrees_without_collision : forall evs, no_collision o_init evs ->
+  snd (odemux_run o_init evs) = snd (demux_run d_init evs) /\
+  o_dead (fst (odemux_run o_init evs)) = false.
+Proof. exact orig_agrees_without_collision. Qed.
+Check C07_demux_orig_agrees_without_collision : forall evs, no_collision o_init evs ->
+  snd (odemux_run o_init evs) = snd (demux_run d_init evs) /\
+  o_dead (fst (odemux_run o_init evs)) = false.
+Print Assumptions C07_demux_orig_agrees_without_collision.
+
+Example C07_demux_orig_agrees_nonvacuous :
+  no_collision o_init [Submit 0 7 IoOk; Submit 1 8 IoOk; Arrive 8; Submit 2 8 IoOk; ConnError].
+Proof. simpl. repeat split; reflexivity. Qed.
+
 (* ---- (ii) the UDP retransmission loop ---------------------------------
    For every fate of every transmission (lost / answered after any delay /
    socket error after any delay), every sequence of jitter values and every
